@@ -26,21 +26,33 @@ Vocabulary (definitions in `LoomVerif/Proofs/C08Notify.lean`, `C08Only.lean`; sp
                       from `false` to `true`.
 * `lockOrWaitNotNotify op`  `op` is one of lock, tryLock, unlock, read, write, tryRead, tryWrite,
                       unread, unwrite, cvWait, cvOne, cvAll, nWait, park, unpark, join.
+* `EpiRun t w w' ks`  a run of the epilogue of the spawned thread `t` before its common tail: stages of
+                      `t` itself interleaved with arbitrary changes that keep `t`'s control record; `ks`
+                      lists the keys whose destructor store was performed (`EpiRun_spelled_out`).
+* `liveKeys w`        the keys with a live thread-local in the active thread, in initialisation order
+                      (`Proofs/C17Tls.lean`, `liveKeys_spelled_out` in `Props/C17.lean`).
 
 FINDINGS recorded here (each with a concrete witness state in `Proofs/SyncExamples.lean`):
 F5/F6 `Park.unpark_wakes_lock_waiter` — `unpark` makes a thread that is blocked on a mutex or in a
 `join` runnable although nothing released / notified; when it runs, loom panics ("expected to be
 able to acquire lock" / `assert!(state.notified)`).  F17 `Park.unpark_raises_causality_at_once` —
 `unpark` joins the unparker's causality into the target immediately, even if the target never
-parks (the reference semantics stores it with the token and joins it at `park`).  F18
-`Park.release_loses_token` — a lock release sets a thread with a stored unpark token
-(`runnable true`) whose stale pending operation names the lock back to `runnable false`: the token
-is lost.
+parks (the reference semantics stores it with the token and joins it at `park`).
+
+REPAIRED findings (the theorems now state the repaired behaviour): F18 — a lock release used to set a
+thread with a stored unpark token (`runnable true`) whose stale pending operation names the lock back to
+`runnable false` (the token was lost; old theorem `Park.release_loses_token`); the four release sites now
+wake through `Thread.wake`, which touches blocked threads only: `Release.keeps_token`,
+`Park.release_keeps_token`.  F20 — the epilogue of a spawned thread used to notify the `JoinHandle` BEFORE
+`drop_locals` and the thread-local destructors; it now runs them first: `Join.after_destructors`,
+`Join.after_exit`.
 -/
 import LoomVerif.Proofs.SyncExamples
+import LoomVerif.Proofs.C08Release
+import LoomVerif.Proofs.C08Epilogue
 
 namespace LoomVerif
-open C12 Sy C07 C08
+open C12 Sy C07 C08 C17
 
 /-! ## 1. `Notify.flag_not_lost`, `Wait.notifier_hb` -/
 
@@ -332,16 +344,54 @@ theorem Park.unpark_raises_causality_at_once :
     ((Ex.wF17.ths.unpark 1).get 1).state = .runnable true :=
   ⟨by decide +kernel, Ex.F17_unpark.1, Ex.F17_unpark.2⟩
 
-/-- Refuted full form (finding F18): a stored token is lost.  `Ex.wF18`: thread 1 is
-`runnable true` (token pending) and its stale pending operation names the mutex; thread 0's
-`release_lock` sets it `runnable false`: a later `park` of thread 1 will block although the unpark
-came first. -/
-theorem Park.release_loses_token :
+/-- The four release sites — `Mutex::release_lock`, `RwLock::release_read_lock`,
+`RwLock::release_write_lock` and the send into an empty channel — in ANY world, on ANY object: a thread
+that is not blocked keeps its whole entry, whatever its pending operation names (since the repair of finding
+F18 the wake-up is `Thread.wake`: `if t.isBlocked then t.setRunnable else t`).  In particular a thread
+other than the active one that holds an unpark token (`runnable true`) still holds it afterwards: its next
+`park` returns at once.  Conversely a BLOCKED thread other than the active one whose pending operation is on
+the released mutex is made `runnable false` (and nothing else of it changes). -/
+theorem Release.keeps_token (w w' : World) (o i : Nat) :
+    ((w.ths.get i).state ≠ .blocked →
+      (w.releaseLock o = .ok w' → w'.ths.get i = w.ths.get i) ∧
+      (w.releaseRead o = .ok w' → w'.ths.get i = w.ths.get i) ∧
+      (w.releaseWrite o = .ok w' → w'.ths.get i = w.ths.get i) ∧
+      (∀ v, w.sendEffect o v = .ok w' → w'.ths.get i = w.ths.get i)) ∧
+    (i ≠ w.tid → (w.ths.get i).state = .runnable true →
+      (w.releaseLock o = .ok w' → (w'.ths.get i).state = .runnable true) ∧
+      (w.releaseRead o = .ok w' → (w'.ths.get i).state = .runnable true) ∧
+      (w.releaseWrite o = .ok w' → (w'.ths.get i).state = .runnable true) ∧
+      (∀ v, w.sendEffect o v = .ok w' → (w'.ths.get i).state = .runnable true)) ∧
+    (∀ p, (w.ths.get i).state ≠ .blocked →
+      (w.forOthers p Thread.wake).ths.get i = w.ths.get i) ∧
+    (∀ p op, i ≠ w.tid → (w.ths.get i).operation = some op → p op = true →
+      (w.ths.get i).state = .blocked →
+      (w.forOthers p Thread.wake).ths.get i = { w.ths.get i with state := .runnable false }) := by
+  refine ⟨fun hb => ⟨releaseLock_keeps_unblocked hb, releaseRead_keeps_unblocked hb,
+      releaseWrite_keeps_unblocked hb, fun _ => sendEffect_keeps_unblocked hb⟩,
+    fun _ hst => ?_, fun p hb => forOthers_wake_get w p i hb,
+    fun p op hi hop hp hb => forOthers_wake_blocked w p i op hi hop hp hb⟩
+  have hb : (w.ths.get i).state ≠ .blocked := by rw [hst]; simp
+  refine ⟨fun h => ?_, fun h => ?_, fun h => ?_, fun v h => ?_⟩
+  · rw [releaseLock_keeps_unblocked hb h, hst]
+  · rw [releaseRead_keeps_unblocked hb h, hst]
+  · rw [releaseWrite_keeps_unblocked hb h, hst]
+  · rw [sendEffect_keeps_unblocked hb h, hst]
+
+/-- Finding F18, repaired (the refuted form was `Park.release_loses_token`: the release set thread 1
+`runnable false`).  `Ex.wF18`: thread 1 is `runnable true` (token pending) and its stale pending operation
+names the mutex; after thread 0's `release_lock` it is STILL `runnable true`.  `Ex.wF18b`: the same state
+with thread 1 blocked on the mutex: the release makes it `runnable false`. -/
+theorem Park.release_keeps_token :
     ((Ex.wF18.ths.get 1).state = .runnable true ∧
       (Ex.wF18.ths.get 1).operation = some ⟨Ex.wF18.mutexObj 0, .opaque⟩) ∧
     (Ex.wF18.releaseLock 0).toOption.map (fun w' => (w'.ths.get 1).state) =
+      some (.runnable true) ∧
+    ((Ex.wF18b.ths.get 1).state = .blocked ∧
+      (Ex.wF18b.ths.get 1).operation = some ⟨Ex.wF18b.mutexObj 0, .opaque⟩) ∧
+    (Ex.wF18b.releaseLock 0).toOption.map (fun w' => (w'.ths.get 1).state) =
       some (.runnable false) :=
-  ⟨by decide, Ex.F18_token_lost⟩
+  ⟨by decide, Ex.F18_token_kept, by decide, Ex.F18_blocked_woken⟩
 
 /-! ## 5. `Condvar` -/
 
@@ -403,30 +453,159 @@ theorem Condvar.reacquires (w : World) (c : TCtl) (vi mi : Nat) (m : MutexSt)
   ⟨fun hs => (cvWait_stage3 h hs).1, fun hs => (cvWait_stage3 h hs).2,
     fun _ hr hpc => cvWait_completes_only_locked h hr hpc⟩
 
-/-! ## 6. `Join.after_exit` -/
+/-! ## 6. `Join.after_exit`, `Join.after_destructors` -/
 
-/-- The epilogue of a spawned thread `t ≠ 0` whose `JoinHandle` notify is `n`: first the branch
-point of `notify` (which terminates nobody and changes no notify object), then `notifyEffect n`
-(the flag of `n` is set and `n`'s clock is above the exiting thread's causality; the thread enters
-the common tail, `fin := 10`), and only THEN the tail `finishThread` (`drop_locals`, the
-thread-local destructors, `thread_done`), which leaves every notify object alone: in the state in
-which the thread has exited the flag of `n` is still set. -/
+/-- The epilogue of a spawned thread `t ≠ 0` whose `JoinHandle` notify is `n` (since the repair of finding
+F20): first `drop_locals` and the loop of the thread-local destructors' stores (`fin = 0`, then
+`3 ≤ fin < 10`), ending — when the queue of destructors is empty (`fin = 4`, `dtorQueue = []`) — with the
+branch point of `notify`; none of these stages terminates anybody or changes a notify object.  Then
+`notifyEffect n` (`fin = 1`: the flag of `n` is set and `n`'s clock is above the exiting thread's causality;
+the thread enters the common tail, `fin := 10`), and only THEN the tail `finishThread` (a second
+`drop_locals` for values initialised by the destructors, their destructors, `thread_done`), which leaves
+every notify object alone: in the state in which the thread has exited the flag of `n` is still set. -/
 theorem Join.after_exit {w w' : World} {c : TCtl} {b n : Nat} {s : NotifySt}
     (ht : w.tid ≠ 0) (hsp : w.spawned.find? (·.2.1 == w.tid) = some (b, w.tid, n))
     (hn : w.exec.objs[n]? = some (.notify s)) (h : w.runEpilogue c = .ok w') :
-    (c.fin = 0 →
-      (w.modCtl w.tid fun c => { c with fin := 1 }).branch n .opaque = .ok w' ∧
+    (c.fin = 0 → w' = w.dropLocals.modCtl w.tid (fun c => { c with fin := 4 }) ∧ w'.exec = w.exec) ∧
+    (c.fin = 0 ∨ 3 ≤ c.fin → c.fin < 10 →
       NotifyKept w.exec.objs w'.exec.objs ∧
       ∀ i, (w'.ths.get i).isTerminated = true → (w.ths.get i).isTerminated = true) ∧
-    (c.fin ≠ 0 → c.fin < 10 →
+    (c.fin = 4 → c.dtorQueue = [] →
+      (w.modCtl w.tid fun c => { c with fin := 1 }).branch n .opaque = .ok w') ∧
+    (c.fin ≠ 0 → c.fin < 3 →
       ∃ w1 s1, w.notifyEffect n = .ok w1 ∧
         w' = w1.modCtl w.tid (fun c => { c with fin := 10 }) ∧
         w1.exec.objs[n]? = some (.notify s1) ∧ s1.notified = true ∧ w.ths.caus.le s1.sync.hb ∧
         w'.exec.objs[n]? = some (.notify s1)) ∧
     (10 ≤ c.fin → w.finishThread c = .ok w' ∧ NotifyKept w.exec.objs w'.exec.objs) :=
   ⟨fun hf => epilogue_first_stage ht hsp hf h,
+    fun hf hlt => epilogue_before_notify ht hsp hf hlt h,
+    fun hf hq => (epilogue_branch_stage ht hsp hf hq h).1,
     fun hf hlt => epilogue_notifies_then_exits ht hsp hn hf hlt h,
     fun hge => epilogue_tail_keeps hge h⟩
+
+theorem EpiRun_spelled_out (t : Nat) (w w' : World) (ks : List Nat) :
+    EpiRun t w w' ks ↔
+      (w' = w ∧ ks = []) ∨
+      (∃ w1, EpiRun t w w1 ks ∧ w1.tid = t ∧ (w1.ctlOf t).fin < 5 ∧
+        w1.runEpilogue (w1.ctlOf t) = .ok w') ∨
+      (∃ w1 ks1 k rest, ks = ks1 ++ [k] ∧ EpiRun t w w1 ks1 ∧ w1.tid = t ∧ 5 ≤ (w1.ctlOf t).fin ∧
+        (w1.ctlOf t).fin < 10 ∧ (w1.ctlOf t).dtorQueue = k :: rest ∧
+        w1.runEpilogue (w1.ctlOf t) = .ok w') ∨
+      (∃ w1, EpiRun t w w1 ks ∧ w'.ctl[t]? = w1.ctl[t]?) := by
+  constructor
+  · intro h
+    cases h with
+    | refl => exact .inl ⟨rfl, rfl⟩
+    | stage hr h1 h2 h3 => exact .inr (.inl ⟨_, hr, h1, h2, h3⟩)
+    | store hr h1 h2 h3 h4 h5 => exact .inr (.inr (.inl ⟨_, _, _, _, rfl, hr, h1, h2, h3, h4, h5⟩))
+    | other hr h1 => exact .inr (.inr (.inr ⟨_, hr, h1⟩))
+  · rintro (⟨rfl, rfl⟩ | ⟨w1, hr, h1, h2, h3⟩ | ⟨w1, ks1, k, rest, rfl, hr, h1, h2, h3, h4, h5⟩ |
+      ⟨w1, hr, h1⟩)
+    · exact .refl _
+    · exact .stage hr h1 h2 h3
+    · exact .store hr h1 h2 h3 h4 h5
+    · exact .other hr h1
+
+/-- `join` returns only after the joined thread's thread-local destructors have run (finding F20,
+repaired).  In the epilogue of a spawned thread `t ≠ 0` the `JoinHandle`'s notify `n` is touched in two
+stages only — the branch point of `notify` and its effect `notifyEffect n` — and:
+
+1. (one step, any world) the branch point is the head of the destructor loop with an EMPTY queue
+   (`fin = 4`, `dtorQueue = []`); the stage `fin = 0` is the first `drop_locals` pass (after it every key
+   the thread had is destroyed: `(k, none)`, see `Tls.dropped_at_exit`), a stage `fin = 4` with a non-empty
+   queue is the branch point of the store of the destructor at its head, a stage `fin ≥ 5` is the effect of
+   that store and pops the queue; the effect of `notify` is the stage `fin = 1` (or 2, never reached).
+   Hence a stage whose successor has `fin = 1` in the thread's record had `fin = 4` and an empty queue.
+2. (any run) from the thread's first epilogue stage (`fin = 0` in `w0`) through any run `EpiRun` of its own
+   stages before the common tail, interleaved with arbitrary changes of the world that keep the thread's
+   control record (`ks`: the keys whose destructor store was PERFORMED on the way): every thread-local the
+   thread had at the end of its body is destroyed, and `ks` followed by the queue is the queue `q0` left by
+   the first `drop_locals` (with `tlsdtor=1`: the keys that were live, in initialisation order).  Whenever
+   the thread is about to run `notifyEffect` (`fin = 1`) — and in the state after it (`fin = 10`) — the
+   queue is EMPTY and `ks = q0`: every destructor store has been performed.
+3. (real steps are steps of such a run) one stage of the active thread (`World.stepActive`, any world)
+   writes only the active thread's own control record — the record of every other thread that has one is
+   kept — so a step of another thread extends a run by `EpiRun.other`; and a step of `t` itself whose
+   program counter is past the end of its body, before the common tail, extends it by a `stage` (`fin < 5`)
+   or a `store` step (`fin ≥ 5`, the key at the head of the queue is appended to `ks`). -/
+theorem Join.after_destructors :
+    (∀ (w w' : World) (c : TCtl) (b n : Nat), w.tid ≠ 0 →
+      w.spawned.find? (·.2.1 == w.tid) = some (b, w.tid, n) → c.fin < 10 →
+      w.runEpilogue c = .ok w' →
+      (c.fin = 0 ∨ c.fin = 3 → w' = w.dropLocals.modCtl w.tid (fun c => { c with fin := 4 })) ∧
+      (c.fin = 4 → ∀ k rest, c.dtorQueue = k :: rest →
+        (w.modCtl w.tid fun c => { c with fin := 5 }).primStart 0 (.store (10 + (k : Int)) .rlx)
+          c.stage = .ok w') ∧
+      (c.fin = 4 → c.dtorQueue = [] →
+        (w.modCtl w.tid fun c => { c with fin := 1 }).branch n .opaque = .ok w') ∧
+      (5 ≤ c.fin → ∃ k rest w1 r, c.dtorQueue = k :: rest ∧
+        w.primEffect 0 (.store (10 + (k : Int)) .rlx) = .ok (w1, r) ∧
+        w' = w1.modCtl w.tid (fun c => { c with fin := 4, dtorQueue := rest })) ∧
+      (c.fin = 1 ∨ c.fin = 2 → ∃ w1, w.notifyEffect n = .ok w1 ∧
+        w' = w1.modCtl w.tid (fun c => { c with fin := 10 })) ∧
+      (w.tid < w.ctl.length → c = w.ctlOf w.tid → (w'.ctlOf w.tid).fin = 1 →
+        c.fin = 4 ∧ c.dtorQueue = [])) ∧
+    (∀ (t : Nat) (w0 w1 w : World) (ks : List Nat), t ≠ 0 → w0.tid = t → t < w0.ctl.length →
+      (w0.ctlOf t).fin = 0 → w0.runEpilogue (w0.ctlOf t) = .ok w1 → EpiRun t w1 w ks →
+      t < w.ctl.length ∧
+      (∀ j v, (w0.ctlOf t).locals.lookup j = some v → (w.ctlOf t).locals.lookup j = some none) ∧
+      ((w.ctlOf t).fin = 4 ∨ (w.ctlOf t).fin = 5 ∨ (w.ctlOf t).fin = 1 ∨ (w.ctlOf t).fin = 10) ∧
+      ((w.ctlOf t).fin = 4 ∨ (w.ctlOf t).fin = 5 →
+        ks ++ (w.ctlOf t).dtorQueue = (w0.dropLocals.ctlOf t).dtorQueue) ∧
+      ((w.ctlOf t).fin = 1 ∨ (w.ctlOf t).fin = 10 →
+        (w.ctlOf t).dtorQueue = [] ∧ ks = (w0.dropLocals.ctlOf t).dtorQueue) ∧
+      (w0.cfg.tlsDtor = 1 → (w0.dropLocals.ctlOf t).dtorQueue = liveKeys w0) ∧
+      (w0.cfg.tlsDtor ≠ 1 → (w0.dropLocals.ctlOf t).dtorQueue = (w0.ctlOf t).dtorQueue)) ∧
+    ((∀ (w w' : World) (t : Nat), w.stepActive = .ok w' → t ≠ w.tid → t < w.ctl.length →
+        w'.ctl[t]? = w.ctl[t]?) ∧
+      ∀ (t : Nat) (w w1 w2 : World) (ks : List Nat), EpiRun t w w1 ks → w1.stepActive = .ok w2 →
+        (w1.tid ≠ t → t < w1.ctl.length → EpiRun t w w2 ks) ∧
+        (t ≠ 0 → w1.tid = t →
+          (w1.prog.threads.getD (w1.ctlOf t).body [])[(w1.ctlOf t).pc]? = none →
+          (w1.ctlOf t).fin < 10 →
+          ((w1.ctlOf t).fin < 5 ∧ EpiRun t w w2 ks) ∨
+          (5 ≤ (w1.ctlOf t).fin ∧ ∃ k rest, (w1.ctlOf t).dtorQueue = k :: rest ∧
+            EpiRun t w w2 (ks ++ [k])))) := by
+  refine ⟨?_, ?_, fun w w' t h ht hin => Foot.stepActive_other h t ht hin,
+    fun t w w1 w2 ks hr hs => ⟨fun hne hin => hr.of_other_step hne hin hs,
+      fun ht htid hpc hlt => hr.of_own_step ht htid hpc hlt hs⟩⟩
+  · intro w w' c b n ht hsp hlt h
+    obtain ⟨t1, t2, t3, t4, t5⟩ := epilogue_stage_table ht hsp hlt h
+    refine ⟨t1, t2, t3, t4, t5, ?_⟩
+    intro hin hc hfin
+    subst hc
+    obtain ⟨_, r1, r2, r3, r4, r5⟩ := epilogue_record ht hsp hin hlt h
+    by_cases e4 : (w.ctlOf w.tid).fin = 4
+    · cases hq : (w.ctlOf w.tid).dtorQueue with
+      | nil => exact ⟨e4, rfl⟩
+      | cons k rest => rw [r2 e4 k rest hq] at hfin; cases hfin
+    · by_cases e0 : (w.ctlOf w.tid).fin = 0 ∨ (w.ctlOf w.tid).fin = 3
+      · rw [r1 e0] at hfin; cases hfin
+      · by_cases e5 : 5 ≤ (w.ctlOf w.tid).fin
+        · obtain ⟨k, rest, _, hc⟩ := r4 e5
+          rw [hc] at hfin; cases hfin
+        · rw [r5 (by omega)] at hfin; cases hfin
+  · intro t w0 w1 w ks ht h0 hin hf hstep hrun
+    obtain ⟨hlen, hloc, hst⟩ := epilogue_run_inv ht h0 hin hf hstep hrun
+    subst h0
+    obtain ⟨q1, q2⟩ := dropLocals_queue w0 hin
+    refine ⟨hlen, hloc, ?_, ?_, ?_, q1, q2⟩
+    · rcases hst with ⟨e | e, _⟩ | ⟨e | e, _⟩
+      · exact .inl e
+      · exact .inr (.inl e)
+      · exact .inr (.inr (.inl e))
+      · exact .inr (.inr (.inr e))
+    · intro e
+      rcases hst with ⟨_, hk⟩ | ⟨e' | e', _⟩
+      · exact hk
+      · omega
+      · omega
+    · intro e
+      rcases hst with ⟨e' | e', _⟩ | ⟨_, hk⟩
+      · omega
+      · omega
+      · exact hk
 
 /-- `join b` is `Notify::wait` on the `JoinHandle`'s object `n`: stage 0 is `notifyWait1 n`, and
 stage 1 (`notifyWait2 n`) returns only if the flag of `n` is set — which only a `notifyEffect n`
@@ -440,12 +619,13 @@ theorem Join.waits_for_flag {w w' : World} {c : TCtl} {b t n : Nat} {s : NotifyS
         (w.tid < w.ths.threads.length → w1.ths.caus = w.ths.caus.join s.sync.hb)) :=
   join_stage1 hl hn hs
 
-/-- `join` happens-after the exit: the second stage of the joined thread's epilogue (in any world
-`wE`), any steps of the object's life, the last stage of `join` (in any world `wJ`): the joiner's
-causality is above the joined thread's causality at its exit. -/
+/-- `join` happens-after the exit: the `notify` stage of the joined thread's epilogue (`fin = 1`: after its
+thread-local destructors, see `Join.after_destructors`; in any world `wE`), any steps of the object's life,
+the last stage of `join` (in any world `wJ`): the joiner's causality is above the joined thread's causality
+at its exit — which includes the destructors' operations. -/
 theorem Join.hb {wE wE' wJ wJ' : World} {cE cJ : TCtl} {bE b t n : Nat} {s0 s1 s2 : NotifySt}
     (ht : wE.tid ≠ 0) (hsp : wE.spawned.find? (·.2.1 == wE.tid) = some (bE, wE.tid, n))
-    (hn : wE.exec.objs[n]? = some (.notify s0)) (hfin : cE.fin ≠ 0) (hlt : cE.fin < 10)
+    (hn : wE.exec.objs[n]? = some (.notify s0)) (hfin : cE.fin ≠ 0) (hlt : cE.fin < 3)
     (hE : wE.runEpilogue cE = .ok wE') (hn1 : wE'.exec.objs[n]? = some (.notify s1))
     (hsteps : NotifySteps s1 s2)
     (hl : wJ.lookupSpawn b = .ok (t, n)) (hn2 : wJ.exec.objs[n]? = some (.notify s2))
